@@ -1,0 +1,22 @@
+//go:build verif
+
+// Contracts for package memkm, checked by /verif (govc). Comment-only; compiled only under -tags verif.
+// durPrimary is the certificate authority's durably recorded primary signing key (/verif/stubs/keymgmt.spec).
+package memkm
+
+// bumpOf(name) is BumpName(name): the name with its "_<n>" counter added or increased; it never equals name
+// (string manipulation is outside the engine's reach, so BumpName itself is trusted; /verif/lemmas/names.spec).
+//@ func BumpName trusted pure
+//@   assigns nothing
+//@   ensures result == bumpOf(name)
+
+// C10/C12: a rotation's new signing key version is named after the recorded primary it replaces - the lookup of that
+// primary must succeed, the new name is BumpName(primary) (hence different from the primary, so the live primary key
+// is never regenerated in place), and that is the key that gets generated.
+//@ func (*T).CreateNewSigningKeyVersion
+//@   requires k != nil && k.Signer != nil && ctx != nil
+//@   requires kcOf(ctx) != nil ==> kcOf(ctx).CA != nil
+//@   modifies *
+//@   axioms bump_changes
+//@   atcall GenerateSigningKey requires[C10,C12] p1 == bumpOf(durPrimary)
+//@   ensures[C10,C12] err == nil ==> result0 == bumpOf(durPrimary) && result0 != durPrimary
